@@ -14,6 +14,7 @@ import (
 type item struct {
 	text  string
 	isHyp bool
+	needs string // prelude symbol this item mentions; dropped from queries whose modules do not declare it
 }
 
 type Obligation struct {
@@ -112,12 +113,12 @@ func (tr *fnTrans) errorf(format string, a ...interface{}) {
 	tr.errs = append(tr.errs, fmt.Sprintf(format, a...))
 }
 
-func (tr *fnTrans) decl(s string) { tr.items = append(tr.items, item{s, false}) }
+func (tr *fnTrans) decl(s string) { tr.items = append(tr.items, item{text: s, isHyp: false}) }
 func (tr *fnTrans) hyp(s string) {
 	if s == "true" {
 		return
 	}
-	tr.items = append(tr.items, item{"(assert " + s + ")", true})
+	tr.items = append(tr.items, item{text: "(assert " + s + ")", isHyp: true})
 }
 
 func (tr *fnTrans) fresh(prefix string) string {
@@ -164,7 +165,7 @@ func (tr *fnTrans) setHeap(name, term string) {
 	n := tr.fresh(name)
 	// a constant (not a macro) so that heap versions can appear in patterns
 	tr.decl(fmt.Sprintf("(declare-const %s %s)", n, heapSortName(hi)))
-	tr.items = append(tr.items, item{fmt.Sprintf("(assert (= %s %s))", n, term), false})
+	tr.items = append(tr.items, item{text: fmt.Sprintf("(assert (= %s %s))", n, term), isHyp: false})
 	tr.heap[name] = n
 	tr.bump(name)
 }
@@ -193,6 +194,7 @@ func (tr *fnTrans) atStep(name, h0, h1, touched string, touchedSlice ...string) 
 			t0 := app(hf, append([]string{h0, "s!s"}, args...)...)
 			tr.hyp(fmt.Sprintf("(forall ((s!s Slice) %s) (! (=> (not %s) (= %s %s)) :pattern (%s) :pattern (%s)))",
 				strings.Join(decl, " "), touchedSlice[0], t1, t0, t1, t0))
+			tr.items[len(tr.items)-1].needs = hf
 		}
 	}
 	at := "at_" + hi.elem.Tag()
@@ -884,7 +886,7 @@ func (tr *fnTrans) block(b *ssa.BasicBlock) {
 			}
 			n := tr.fresh(name)
 			tr.decl(fmt.Sprintf("(declare-const %s %s)", n, heapSortName(tr.maps[name])))
-			tr.items = append(tr.items, item{fmt.Sprintf("(assert (= %s %s))", n, term), false})
+			tr.items = append(tr.items, item{text: fmt.Sprintf("(assert (= %s %s))", n, term), isHyp: false})
 			tr.heap[name] = n
 			if hi := tr.maps[name]; hi.isArr {
 				at := "at_" + hi.elem.Tag()
